@@ -131,6 +131,8 @@ def elementwise(*args):
             raise Unsupported(f"elementwise operand {a!r}")
     if any_arr and shp == ():
         return ANpScal()
+    if not any_arr and any(isinstance(a, ANpScal) for a in args):
+        return ANpScal()
     return AArr(shp) if any_arr else AScal()
 
 
@@ -320,6 +322,39 @@ def mul_dim(d, r):
     return ("mul", d, r)
 
 
+def np_reshape(a, new):
+    """reshape with at most one -1; the trailing dims of `new` that equal
+    the trailing dims of `a` are kept, the leading ones are merged."""
+    if isinstance(new, int):
+        new = (new,)
+    new = tuple(new)
+    if not isinstance(a, AArr):
+        raise Unsupported("reshape of a non-array")
+    if new.count(-1) > 1:
+        raise ShapeError("reshape with more than one -1")
+    if -1 not in new:
+        return AArr(new)
+    k = new.index(-1)
+    tail = new[k + 1:]
+    head = new[:k]
+    if head:
+        raise Unsupported("reshape with -1 not in front")
+    if tail and a.shape[len(a.shape) - len(tail):] != tail:
+        raise Unsupported(f"reshape {a.shape} -> {new}")
+    lead = a.shape[:len(a.shape) - len(tail)]
+    if not lead:
+        d = 1
+    elif len(lead) == 1:
+        d = lead[0]
+    elif all(isinstance(x, int) for x in lead):
+        d = 1
+        for x in lead:
+            d *= x
+    else:
+        d = "*".join(str(x) for x in lead)
+    return AArr((d,) + tail)
+
+
 def np_tile(a, reps):
     if isinstance(reps, int):
         reps = (reps,)
@@ -337,7 +372,9 @@ UFUNCS = {"np.sqrt", "np.abs", "np.cos", "np.sin", "np.arctan2", "np.exp",
           "np.arccosh", "np.arccos", "np.sign", "np.conjugate", "np.real",
           "np.imag", "np.maximum", "np.minimum", "np.square", "np.tan",
           "np.arctan", "np.sinh", "np.cosh", "np.tanh", "np.arcsinh",
-          "np.absolute", "np.log", "np.isnan"}
+          "np.absolute", "np.log", "np.isnan", "np.emath.sqrt", "np.isclose",
+          "np.logical_and", "np.logical_or", "np.logical_not", "np.angle",
+          "np.arcsin", "np.power"}
 
 
 class Interp:
@@ -581,6 +618,10 @@ class Interp:
     def assign(self, t, v, env):
         if isinstance(t, ast.Subscript):
             base = self.expr(t.value, env)
+            if isinstance(base, AObj):
+                self.obj_method(base, "__setitem__",
+                                [self.index(t.slice, env), v], {})
+                return
             if isinstance(base, list):
                 i = self.expr(t.slice, env)
                 if not isinstance(i, int):
@@ -631,8 +672,13 @@ class Interp:
             if isinstance(op, (ast.Add, ast.Sub, ast.Mult, ast.Div, ast.Pow,
                                ast.FloorDiv, ast.Mod)):
                 return elementwise(a, b)
+            if isinstance(op, (ast.BitAnd, ast.BitOr, ast.BitXor)):
+                res = elementwise(a, b)
+                return ANpBool() if isinstance(res, ANpScal) else res
             raise Unsupported("operator on arrays")
         if isinstance(a, AScal) or isinstance(b, AScal):
+            if isinstance(op, (ast.BitAnd, ast.BitOr, ast.BitXor)):
+                return ANpBool()
             if isinstance(a, ANpScal) or isinstance(b, ANpScal):
                 return ANpScal()
             return AScal()
@@ -699,6 +745,8 @@ class Interp:
                 return not self.truth(v)
             if isinstance(v, (AArr, AScal)) or isinstance(v, float):
                 return v
+            if isinstance(e.op, ast.USub) and isinstance(v, str):
+                raise Unsupported("negated symbolic size")
             raise Unsupported("unary op")
         if isinstance(e, ast.BinOp):
             return self.binop(e.op, self.expr(e.left, env),
@@ -756,6 +804,13 @@ class Interp:
                         for d in m.decorator_list):
                     return self.call_node(m, [v])
                 raise AttributeErrorSim(e.attr)
+            if isinstance(v, ANpScal):
+                if e.attr == "shape":
+                    return ()
+                if e.attr == "ndim":
+                    return 0
+                if e.attr in ("T", "real", "imag"):
+                    return v
             if isinstance(v, AArr):
                 if e.attr == "T":
                     return AArr(tuple(reversed(v.shape)))
@@ -786,9 +841,25 @@ class Interp:
             if isinstance(v, ANpScal):
                 # NumPy scalars index like 0-d arrays
                 return index_array(AArr(()), self.index(e.slice, env))
+            if isinstance(v, AObj):
+                return self.obj_method(v, "__getitem__",
+                                       [self.index(e.slice, env)], {})
             raise Unsupported(f"subscript of {v!r}")
         if isinstance(e, ast.Call):
             return self.callexpr(e, env)
+        if isinstance(e, (ast.GeneratorExp, ast.ListComp)) \
+                and len(e.generators) == 1 and not e.generators[0].ifs:
+            g = e.generators[0]
+            it = self.expr(g.iter, env)
+            if not isinstance(it, (tuple, list)):
+                raise Unsupported("comprehension over a non-concrete "
+                                  "iterable")
+            out = []
+            for x in it:
+                env2 = dict(env)
+                self.assign(g.target, x, env2)
+                out.append(self.expr(e.elt, env2))
+            return tuple(out) if isinstance(e, ast.GeneratorExp) else out
         raise Unsupported(f"expression {type(e).__name__}")
 
     def is_module_path(self, v, env):
@@ -909,12 +980,18 @@ class Interp:
             return np_squeeze(a, axis)
         if name in ("astype", "copy", "conjugate"):
             return a
+        if name == "view" and args and isinstance(args[0], str) \
+                and args[0].startswith("(2,)"):
+            return AArr(a.shape + (2,))     # complex -> pair of reals
         if name in ("any", "all") and not args and not kw:
             return ABool()
         if name == "sort":
             axis = kw.get("axis", args[0] if args else -1)
             _norm_axes(axis, len(a.shape))
             return None
+        if name == "reshape":
+            new = args[0] if len(args) == 1 else tuple(args)
+            return np_reshape(a, new)
         if name == "swapaxes":
             ax = _norm_axes(tuple(args[:2]), len(a.shape))
             sh = list(a.shape)
@@ -982,6 +1059,10 @@ class Interp:
                 if e.func.attr in ("astype", "copy", "conjugate", "item",
                                    "squeeze"):
                     return recv
+                if e.func.attr == "view" and e.args and isinstance(
+                        e.args[0], ast.Constant) and str(
+                            e.args[0].value).startswith("(2,)"):
+                    return AArr((2,))
                 if e.func.attr in ("any", "all"):
                     return ABool()
                 if e.func.attr in ("sum", "max", "min"):
@@ -1031,6 +1112,9 @@ class Interp:
         if name in ("copy", "copy.copy") and args \
                 and isinstance(args[0], AObj):
             return args[0].clone()
+        if name in ("copy", "copy.copy", "deepcopy", "copy.deepcopy") \
+                and args and isinstance(args[0], (AArr, AScal)):
+            return args[0]
         if self.project is not None and name in self.ctor_classes \
                 and args:
             a0 = args[0]
@@ -1128,6 +1212,9 @@ class Interp:
             axis = kw.get("axis", args[1] if len(args) > 1 else 0)
             shp = None
             for x in items:
+                if isinstance(x, AScal) or (isinstance(x, (int, float))
+                                            and not isinstance(x, bool)):
+                    x = AArr(())
                 if not isinstance(x, AArr):
                     raise Unsupported("np.stack of non-arrays")
                 shp = x.shape if shp is None else bshape_exact(shp, x.shape)
@@ -1168,6 +1255,30 @@ class Interp:
         if name == "list" and len(args) == 1 and isinstance(
                 args[0], (tuple, list)):
             return list(args[0])
+        if name == "np.reshape" and len(args) >= 2:
+            return np_reshape(args[0], args[1])
+        if name == "np.full":
+            shp = args[0]
+            return AArr(tuple(shp) if isinstance(shp, (tuple, list))
+                        else (shp,))
+        if name == "np.linalg.qr" and isinstance(args[0], AArr) \
+                and kw.get("mode") == "complete":
+            sh = args[0].shape
+            if len(sh) < 2:
+                raise ShapeError(f"QR of an array of shape {sh}")
+            return (AArr(sh[:-1] + (sh[-2],)), AArr(sh))
+        if name == "np.putmask" and len(args) == 3:
+            a, mask, vals = args
+            if isinstance(a, AArr) and isinstance(mask, AArr) \
+                    and mask.shape != a.shape:
+                raise ShapeError(f"np.putmask: mask of shape {mask.shape} "
+                                 f"for an array of shape {a.shape}")
+            if isinstance(a, AArr) and isinstance(vals, AArr) \
+                    and vals.shape != a.shape:
+                raise ShapeError(
+                    f"np.putmask: values of shape {vals.shape} are cycled "
+                    f"over an array of shape {a.shape}")
+            return None
         if name == "np.lexsort":
             keys = args[0]
             axis = kw.get("axis", args[1] if len(args) > 1 else -1)
@@ -1213,8 +1324,9 @@ class Interp:
             if axis is None:
                 return AScal()
             ax = _norm_axes(axis, len(args[0].shape))
-            return AArr(tuple(d for i, d in enumerate(args[0].shape)
-                              if i not in ax))
+            out = tuple(d for i, d in enumerate(args[0].shape)
+                        if i not in ax)
+            return AArr(out) if out else ANpScal()
         if name == "np.take_along_axis":
             arr, ind = args[0], args[1]
             axis = kw.get("axis", args[2] if len(args) > 2 else None)
@@ -1247,6 +1359,17 @@ class Interp:
         if name == "np.array":
             if isinstance(args[0], tuple):
                 return AVec(args[0])
+            if isinstance(args[0], list):
+                def lshape(x):
+                    if isinstance(x, list):
+                        subs = {lshape(y) for y in x}
+                        if len(subs) > 1:
+                            raise Unsupported("ragged literal")
+                        return (len(x),) + (subs.pop() if subs else ())
+                    if isinstance(x, AArr):
+                        return x.shape
+                    return ()
+                return AArr(lshape(args[0]))
             raise Unsupported("np.array of non-tuple")
         if name == "np.nonzero":
             v = args[0]
